@@ -72,6 +72,20 @@ func c10BaseActs(b c10Base) []SAct {
 			acts = append(acts, SAct{Op: "deliver", F: &FrameSpec{Id: 2, Hdr: "ok:0", Method: mCStr, Src: "src", Dst: "dst", Body: i64(500)}})
 		}
 		acts = append(acts, SAct{Op: "deliver", F: &FrameSpec{Id: 31, Hdr: "ok:0", Method: mUnary2, Src: "src", Dst: "dst", Body: i64(501)}})
+	case "rstpark":
+		// the transport blocks: the writer parks in Write with the first reset, the read loop parks in resetStream
+		// (holding the registry lock) with the second
+		acts = append(acts, SAct{Op: "wblock", On: true})
+		acts = append(acts, SAct{Op: "deliver", F: &FrameSpec{Id: 41, Hdr: "ok:0", Method: mBidi, Src: "src", Dst: "dst", Body: i64(600)}})
+		acts = append(acts, SAct{Op: "deliver", F: &FrameSpec{Id: 42, Hdr: "ok:0", Method: mBidi, Src: "src", Dst: "dst", Body: i64(601)}})
+		acts = append(acts, SAct{Op: "deliver", F: &FrameSpec{Id: 43, Hdr: "ok:0", Method: mUnary, Src: "src", Dst: "dst", Body: i64(602)}})
+	case "fwdpark":
+		// a stream handler that does not drain its queue: the read loop parks forwarding the second message
+		if b.ns > 0 {
+			for j := 0; j < 3; j++ {
+				acts = append(acts, SAct{Op: "deliver", F: &FrameSpec{Id: 1, Hdr: "ok:0", Method: mBidi, Src: "src", Dst: "dst", Body: i64(int64(610 + j))}})
+			}
+		}
 	case "gate":
 	}
 	return acts
@@ -177,7 +191,7 @@ func TestC10(t *testing.T) {
 	}
 	for nu := 0; nu <= maxH; nu++ {
 		for ns := 0; ns <= maxH; ns++ {
-			for _, mode := range []string{"recv", "send", "await", "gate", "respond"} {
+			for _, mode := range []string{"recv", "send", "await", "gate", "respond", "rstpark", "fwdpark"} {
 				for _, trig := range []string{"failread", "wfail", "stop"} {
 					n := len(c10BaseActs(c10Base{nu: nu, ns: ns, mode: mode}))
 					for pos := 0; pos <= n; pos++ {
